@@ -381,9 +381,16 @@ def subchecks(tier):
         Sub('rooms', run_room, strategy=room_case(), examples={'quick': 160, 'thorough': 9600}),
         Sub('ippe-and-solver', run_ippe, strategy=room_case(), examples={'quick': 160, 'thorough': 6000}),
         Sub('dropped-sample-rooms', run_room, cases=dropped_room_cases, distinct_by_construction=True),
+        Sub('long-recordings', run_room, cases=long_recording_cases, distinct_by_construction=True),
         Sub('rough-initial-rooms', run_room, cases=rough_room_cases, distinct_by_construction=True),
         Sub('pose-averaging', run_average, strategy=average_case(), examples={'quick': 800, 'thorough': 40000}),
     ]
+
+
+def long_recording_cases(tier):
+    """long recordings: several hundred matched samples (more than fit one byte of index)"""
+    for seed, ids, ncf in ((11, [0, 1, 2], 330), (12, [0, 1, 2], 330), (13, [1, 3], 300), (14, [0, 1, 2, 3], 520)):
+        yield {'seed': seed, 'ids': ids, 'ncf': ncf, 'visibility': 'full', 'timing': 'sparse', 'bs_order': 'sorted', 'max_tilt': 10.0, 'yaw_mode': 'random', 'box': None}
 
 
 def dropped_room_cases(tier):
